@@ -533,12 +533,63 @@ def rule_r5(F, rep):
     rep.floor(R, n, 9, "suffix scenarios")
 
 
+def rule_r6(F, rep):
+    R = rep.rule("C15.R6", "the precedence machine resumes a binary level only with the level it suspended: every "
+                 "`State::BinaryRhs(level, expr)` built in parse_expr takes its level from the stack item / state it was "
+                 "suspended in (BinaryLhs(level), BinaryRhs(level, ..)), never a constant. A constant level makes a finished operand "
+                 "(a unary, parenthesised or suffix expression) look for that level's operators while an enclosing tighter "
+                 "construct (a pending prefix operator) is still open, so `~~a * b` groups as `~((~a) * b)`")
+    pe = F.fn(PE)
+    fns = [pe] + [f for f in F.fn_list if f.crate.name == "rsjsonnet_lang" and F.is_new_fn(f.q) and f.q.startswith("<%s>::" % PARSER)]
+    n = 0
+    for fn in fns:
+        body = fn.body
+        defs = {}
+        for bb, si, st in body.assigns():
+            if not st["p"]["p"]:
+                defs.setdefault(st["p"]["l"], []).append(st["rv"])
+
+        def origin(op, depth=0):
+            """'const:<Variant>' | 'payload' | 'param' | 'unknown'"""
+            if op["k"] == "const":
+                return {"const:?"}
+            if op["p"]:
+                return {"payload"}          # a field / downcast projection of a matched value
+            l = op["l"]
+            if 0 < l <= body.argc:
+                return {"param"}
+            out = set()
+            for rv in defs.get(l, []):
+                if rv["k"] == "agg" and rv["ak"] == "adt" and rv.get("adt") == BK:
+                    out.add("const:" + rv["v"])
+                elif rv["k"] == "use" and depth < 6:
+                    out |= origin(rv["x"], depth + 1)
+                else:
+                    out.add("unknown")
+            return out or {"payload"}       # pattern-bound: no assignment in this body
+        for bb, si, st in body.assigns():
+            rv = st["rv"]
+            if rv["k"] == "agg" and rv["ak"] == "adt" and rv.get("adt") == ST and rv["v"] == "BinaryRhs":
+                n += 1
+                org = origin(rv["xs"][0])
+                consts = sorted(o for o in org if o.startswith("const:"))
+                ok = not consts
+                rep.ob(R, "%s|BinaryRhs@%d" % (fn.q.rsplit("::", 1)[-1], n), ok, {"level_origin": sorted(org)})
+                if not ok:
+                    rep.violation(R, "%s|BinaryRhs-constant-level|%s" % (fn.q, consts[0][6:]),
+                                  "parse_expr resumes the binary level %s by constant instead of the level it suspended: the "
+                                  "finished operand looks for that level's operators even when a tighter construct is still "
+                                  "pending on the stack" % consts[0][6:], body.span(st["sp"]))
+    rep.floor(R, n, 3, "State::BinaryRhs constructions")
+
+
 def run(F, rep, tier):
     rep.attempt(rule_r1, F, rep)
     rep.attempt(rule_r2, F, rep)
     rep.attempt(rule_r3, F, rep)
     rep.attempt(rule_r4, F, rep)
     rep.attempt(rule_r5, F, rep)
+    rep.attempt(rule_r6, F, rep)
     rep.assume("print/re-parse stability is not decided (no printer exists in the repository); node span containment "
                "is not decided")
     return EXPLANATION
